@@ -45,6 +45,7 @@ static long crash_k = -1;
 static int crash_mode = 0; /* 1 before, 2 after, 3 torn */
 static pthread_mutex_t mu = PTHREAD_MUTEX_INITIALIZER;
 static long seq = 0;
+static long unlink_delay_us = 0; /* FSFAULT_UNLINK_DELAY_US: a slow disk for unlink/rmdir under the root */
 
 static char *fd_rel[MAXFD]; /* relpath of tracked writable fds */
 
@@ -112,6 +113,8 @@ __attribute__((constructor)) static void init(void) {
     strncpy(root, r, sizeof(root) - 2);
     root_len = strlen(root);
     while (root_len > 1 && root[root_len - 1] == '/') root[--root_len] = 0;
+    const char *ud = getenv("FSFAULT_UNLINK_DELAY_US");
+    if (ud && *ud) unlink_delay_us = atol(ud);
     const char *lg = getenv("FSFAULT_LOG");
     if (lg && *lg) log_fd = real_open(lg, O_WRONLY | O_CREAT | O_APPEND, 0644);
     const char *c = getenv("FSFAULT_CRASH");
@@ -401,6 +404,7 @@ int unlinkat(int dirfd, const char *path, int flags) {
     if (!real_unlinkat) resolve_syms();
     char rel[4096];
     if (active && under_root(dirfd, path, rel, sizeof(rel))) {
+        if (unlink_delay_us > 0) usleep((useconds_t)unlink_delay_us);
         int act = effect((flags & AT_REMOVEDIR) ? "rmdir" : "unlink", rel, 0);
         int r = real_unlinkat(dirfd, path, flags);
         if (act >= 2) die();
@@ -476,6 +480,29 @@ int bind(int fd, const struct sockaddr *addr, socklen_t len) {
     }
     errno = e;
     return rc;
+}
+
+/* ---- slow listen(): FSFAULT_LISTEN_DELAY_US widens the window between bind() and listen() of a
+ * `monorail` process, the way a loaded machine would ---- */
+static int (*real_listen)(int, int);
+int listen(int fd, int backlog) {
+    if (!real_listen) real_listen = dlsym(RTLD_NEXT, "listen");
+    const char *d = getenv("FSFAULT_LISTEN_DELAY_US");
+    if (d && *d) {
+        if (is_monorail < 0) {
+            char comm[64] = {0};
+            if (!real_open) resolve_syms();
+            int cfd = real_open("/proc/self/comm", O_RDONLY);
+            if (cfd >= 0) {
+                ssize_t n = read(cfd, comm, sizeof(comm) - 1);
+                if (n > 0 && comm[n - 1] == '\n') comm[n - 1] = 0;
+                real_close(cfd);
+            }
+            is_monorail = strcmp(comm, "monorail") == 0;
+        }
+        if (is_monorail) usleep((useconds_t)atol(d));
+    }
+    return real_listen(fd, backlog);
 }
 
 /* ---- randomness seam ---- */
